@@ -14,6 +14,7 @@ import (
 
 	"pgregory.net/rapid"
 
+	"github.com/mutagen-io/mutagen/pkg/filesystem"
 	"github.com/mutagen-io/mutagen/pkg/synchronization/core"
 
 	"verif/kit/disk"
@@ -29,6 +30,10 @@ type Touch struct {
 	Op   string `json:"op"` // grow, same-size-later-mtime, chmod, new-inode, to-dir, to-link, to-file, retarget, new-child, create-at-new, touch
 	Path string `json:"path"`
 	Name string `json:"name,omitempty"` // for new-child
+	// During: the edit is made in the middle of the transition, when it is
+	// about to unlink some other object (first unlinkat of a different name),
+	// instead of between the scan and the transition.
+	During bool `json:"during_transition,omitempty"`
 }
 
 // Case is a tree, a plan and the interloper's edits.
@@ -147,7 +152,11 @@ func judge(c *Case, dir string) (violation string, nontrivial bool, classes []st
 	}
 	defer disk.MakeWritable(dir)
 	plan := w.Changes(c.Plan)
-	sdir, _ := w.StagingDir(c.Config)
+	sdir, onShm := w.StagingDir(c.Config)
+	if onShm {
+		defer os.RemoveAll(sdir)
+		classes = append(classes, "staging-on-another-device")
+	}
 	prov := &trans.Provider{Dir: sdir}
 	if err := prov.Stage(plan); err != nil {
 		return "", false, nil
@@ -159,15 +168,53 @@ func judge(c *Case, dir string) (violation string, nontrivial bool, classes []st
 		tc   *Touch
 	}
 	var prot []protected
+	var during []*Touch
 	for _, tc := range c.Touches {
+		if tc.During {
+			during = append(during, tc)
+			continue
+		}
 		cur, _ := disk.Observe(w.Root)
 		if p := applyTouch(w.Root, tc, cur); p != "" {
 			prot = append(prot, protected{p, tc})
 		}
 	}
 	afterInterloper, _ := disk.Observe(w.Root)
+	// Edits made while the transition runs: applied (once) when the transition
+	// is about to unlink an object with another name, i.e. strictly before the
+	// transition examines the edited file itself.
+	duringWas := map[string]*disk.Node{}
+	if len(during) > 0 {
+		filesystem.VerifSetInjector(func(op, leaf string) error {
+			if op != "unlinkat" {
+				return nil
+			}
+			rest := during[:0]
+			for _, tc := range during {
+				if filepath.Base(tc.Path) == leaf {
+					rest = append(rest, tc)
+					continue
+				}
+				cur, _ := disk.Observe(w.Root)
+				// Only a file the transition has not dealt with yet (still
+				// exactly as scanned) is edited.
+				if at, now := obs.At(tc.Path), cur.At(tc.Path); at == nil || now == nil || at.Render(true) != now.Render(true) {
+					continue
+				}
+				if p := applyTouch(w.Root, tc, cur); p != "" {
+					prot = append(prot, protected{p, tc})
+					duringWas[p], _ = disk.Observe(filepath.Join(w.Root, filepath.FromSlash(p)))
+					classes = append(classes, "edited-during-the-transition")
+				}
+			}
+			during = rest
+			return nil
+		})
+		defer filesystem.VerifSetInjector(nil)
+	}
 
 	results, problems, _ := w.Transition(context.Background(), plan, c.Config, prov)
+	filesystem.VerifSetInjector(nil)
 	final, _ := disk.Observe(w.Root)
 	if len(results) != len(plan) {
 		return fmt.Sprintf("%d results for %d transitions", len(results), len(plan)), false, nil
@@ -189,6 +236,9 @@ func judge(c *Case, dir string) (violation string, nontrivial bool, classes []st
 		nontrivial = true
 		classes = append(classes, "covered/"+pr.tc.Op)
 		was, now := afterInterloper.At(pr.path), final.At(pr.path)
+		if d, ok := duringWas[pr.path]; ok {
+			was = d
+		}
 		if was == nil {
 			continue
 		}
@@ -262,6 +312,9 @@ func drawCase(rt *rapid.T) *Case {
 		rt.Skip("empty plan")
 	}
 	c.Config = trans.Config{FileMode: 0o644, DirMode: 0o755}
+	// Staging on another filesystem (tmpfs): files reach the root through the
+	// copy-then-rename fallback instead of a direct rename.
+	c.Config.StageOnShm = rapid.IntRange(0, 2).Draw(rt, "stage-on-other-device") == 0
 	// Candidate paths: everything at or below a planned path (plus the
 	// planned creation paths), and a few elsewhere.
 	var inPlan, elsewhere []string
@@ -295,7 +348,7 @@ func drawCase(rt *rapid.T) *Case {
 		if len(pool) == 0 || (len(elsewhere) > 0 && rapid.IntRange(0, 5).Draw(rt, "elsewhere") == 0) {
 			pool = elsewhere
 		}
-		if len(creations) > 0 && rapid.IntRange(0, 4).Draw(rt, "at-creation") == 0 {
+		if len(creations) > 0 && rapid.IntRange(0, 2).Draw(rt, "at-creation") == 0 {
 			c.Touches = append(c.Touches, &Touch{Op: "create-at-new", Path: rapid.SampledFrom(creations).Draw(rt, "creation")})
 			continue
 		}
@@ -313,7 +366,11 @@ func drawCase(rt *rapid.T) *Case {
 		case tree.KDir:
 			ops = []string{"new-child", "new-child", "to-file", "to-link"}
 		}
-		c.Touches = append(c.Touches, &Touch{Op: rapid.SampledFrom(ops).Draw(rt, "touch.op"), Path: p, Name: rapid.SampledFrom([]string{"zz-new", "interloper.txt"}).Draw(rt, "touch.name")})
+		tc := &Touch{Op: rapid.SampledFrom(ops).Draw(rt, "touch.op"), Path: p, Name: rapid.SampledFrom([]string{"zz-new", "interloper.txt"}).Draw(rt, "touch.name")}
+		if e.Kind == tree.KFile && strings.Contains(p, "/") && (tc.Op == "grow" || tc.Op == "same-size-later-mtime" || tc.Op == "touch" || tc.Op == "chmod" || tc.Op == "new-inode") {
+			tc.During = rapid.IntRange(0, 2).Draw(rt, "touch.during") == 0
+		}
+		c.Touches = append(c.Touches, tc)
 	}
 	return c
 }
@@ -322,7 +379,7 @@ func TestInterloper(t *testing.T) {
 	if ev.ReplayPath() != "" {
 		t.Skip()
 	}
-	rec := ev.New(t, prop, "scan-interloper-transition", "rapid: random tree -> cold scan -> plan with Old from the snapshot -> 1-3 interloper edits (grow, same-size edit with later mtime, touch, chmod, same bytes/mtime/mode in a new inode, type change, link retarget, new child in a directory, content created where the plan creates) -> core.Transition; every touched object covered by a transition must survive exactly (lstat identity, bytes, target) and be reported, untouched transitions must complete; non-trivial: >= 1 interloper edit on a path covered by a transition")
+	rec := ev.New(t, prop, "scan-interloper-transition", "rapid: random tree -> cold scan -> plan with Old from the snapshot -> 1-3 interloper edits (grow, same-size edit with later mtime, touch, chmod, same bytes/mtime/mode in a new inode, type change, link retarget, new child in a directory, content created where the plan creates; file edits optionally made in the middle of the transition, when it is about to unlink an object of another name) -> core.Transition (staged files in a third of the cases on another filesystem, so that they arrive through the cross-device copy fallback); every touched object covered by a transition must survive exactly (lstat identity, bytes, target) and be reported, untouched transitions must complete; non-trivial: >= 1 interloper edit on a path covered by a transition")
 	base := t.TempDir()
 	i := 0
 	ev.Check(t, rec, 700, 40000, func(rt *rapid.T) {
